@@ -116,3 +116,75 @@ def selfplay(tier, replay=None):
     if tot.get("moves", 0) < 20:
         raise ToolError("coverage hole: fewer than 20 moves observed in self-play")
     return 1 if bad else 0
+
+
+def bench(tier, replay=None):
+    """The `-T -d D --fen X` front end (generate_moves_test: the node count it prints is perft(1) + ... + perft(D)) against
+    Perft.tla: direction spec -> code through the real binary's command line, on positions the suite's perft tests do not use."""
+    import re
+    import selfcheck
+    binary = vcommon.build_binary(False)
+    rng = random.Random(vcommon.seed() * 131 + 5)
+    seeds = [l.strip() for l in open(os.path.join(vcommon.VERIF, "harness", "seeds.txt")) if l.strip()]
+    fens = ["r3k2r/8/8/8/8/8/8/R3K2R w KQkq - 0 1", "4k3/P6p/8/8/8/8/p6P/4K3 b - - 0 1", "8/8/8/2PpP3/8/8/8/2K1k3 w - d6 0 2",
+            "r3k2r/1P4P1/8/8/8/8/1p4p1/R3K2R w KQkq - 0 1", "8/8/8/8/8/6R1/8/k1K5 b - - 0 1", "2r1k3/8/8/2PpP3/8/8/8/2K5 w - d6 0 1"]
+    fens += rng.sample(seeds, 10 if tier == "quick" else 40)
+    if replay:
+        fens = [json.load(open(replay))["fen"]]
+    depth = 2 if tier == "quick" else 3
+    d = os.path.join(vcommon.BUILD, "bench-%d" % os.getpid())
+    os.makedirs(d, exist_ok=True)
+    jobs = []
+    for i, fen in enumerate(fens):
+        s = chessutil.fen_to_s(fen)
+        for dd in range(1, depth + 1):
+            path = os.path.join(d, "b%d-%d.json" % (i, dd))
+            json.dump({"name": "b%d" % i, "fen": fen, "pos": {k: s[k] for k in ("r", "stm", "cr", "ep")}, "half": s["half"], "full": s["full"],
+                       "depth": dd, "shard": 0, "of": 1}, open(path, "w"))
+            jobs.append((i, dd, path))
+
+    def one(j):
+        r = vcommon.tlc("Perft", "Perft.cfg", env={"PERFT": j[2]}, workers=1, xmx="2g", timeout=3000)
+        pr = vcommon.tlc_prints(r["out"], "PERFT")
+        if not pr:
+            if "Assumption line 27" in r["out"]:
+                return j[0], j[1], None     # outside the precondition (WellFormed): not used
+            raise ToolError("perft run failed: " + r["out"][-1500:])
+        return j[0], j[1], pr[0][4]
+
+    t0 = time.time()
+    with ThreadPoolExecutor(max_workers=vcommon.NCPU) as ex:
+        res = list(ex.map(one, jobs))
+    want = {}
+    for i, dd, v in res:
+        want.setdefault(i, {})[dd] = v
+    bad = []
+    cwd = os.path.join(vcommon.BUILD, "run-cwd")
+    os.makedirs(cwd, exist_ok=True)
+    skipped = [i for i in want if any(v is None for v in want[i].values())]
+    for i, fen in enumerate(fens):
+        if i in skipped:
+            continue
+        for dd in range(1, depth + 1):
+            p = subprocess.run([binary, "-T", "-d", str(dd), "--fen=" + fen], cwd=cwd, stdout=subprocess.PIPE, stderr=subprocess.DEVNULL, text=True, timeout=300)
+            m = re.search(r"Searched to a depth of (\d+) and evaluated (\d+) nodes", p.stdout)
+            exp = sum(want[i][k] for k in range(1, dd + 1))
+            if p.returncode != 0 or not m or int(m.group(1)) != dd or int(m.group(2)) != exp:
+                bad.append({"fen": fen, "depth": dd, "expected_nodes": exp, "printed": p.stdout.strip()[-200:], "rc": p.returncode})
+    # the argument checks of the front end
+    for args, text in ((["-T", "-d", "100"], "Can not have depth greater than"), (["-T", "-d", "x"], "Invalid depth provided"), (["-T", "--fen=bad"], "")):
+        p = subprocess.run([binary] + args, cwd=cwd, stdout=subprocess.PIPE, stderr=subprocess.DEVNULL, text=True, timeout=60)
+        if p.returncode != 0 or text not in p.stdout or "Searched" in p.stdout:
+            bad.append({"args": args, "printed": p.stdout.strip()[-200:], "rc": p.returncode})
+    shutil.rmtree(d, ignore_errors=True)
+    ev = {"what": "test-bench front end (-T -d D --fen X): printed node counts against Perft.tla (sum of perft(1..D))", "tier": tier, "positions": len(fens) - len(skipped),
+          "depth": depth, "violations": bad, "wall_s": round(time.time() - t0, 1)}
+    if not replay and not os.environ.get("VERIF_NO_EVIDENCE"):
+        json.dump(ev, open(os.path.join(vcommon.VERIF, "extras", "bench.json"), "w"), indent=1)
+    for b in bad[:10]:
+        rp = os.path.join(vcommon.VERIF, "replays", "bench-%08x.json" % (hash(json.dumps(b, sort_keys=True)) & 0xffffffff))
+        os.makedirs(os.path.dirname(rp), exist_ok=True)
+        json.dump({"fen": b.get("fen"), "what": b}, open(rp, "w"))
+        print("EXTRA-VIOLATION bench replay=%s %s" % (rp, json.dumps(b)[:300]))
+    log("bench %s: %d position(s) to depth %d, %d violation(s), wall %.0fs" % (tier, len(fens), depth, len(bad), time.time() - t0))
+    return 1 if bad else 0
